@@ -3,7 +3,7 @@
 //! Sequential part (E-SRV): the real `resolved` runs with `-Z zdir -A hdir -z zfile -a hfile`;
 //! every sequence of configuration edits up to a depth is applied, each edit followed by
 //! SIGUSR1, the log line `done - success|failure` and a query for every marker name.  The
-//! reference is a table: (files, loaded), `SIGUSR1` with every file valid => loaded := files,
+//! reference is a table: (files, loaded), `SIGUSR1` with every listed file valid and readable => loaded := files,
 //! else unchanged.
 //!
 //! Concurrent part (E-GATE): the same binary with `RESOLVED_VERIF_GATE` set parks every
@@ -37,7 +37,15 @@ pub struct Files {
     a_changed: bool,
     a_corrupt: bool,
     b_present: bool,
+    /// zdir/20-b.zone is a symbolic link to a file that does not exist
+    b_dangling: bool,
     c_present: bool,
+    /// zdir/40-d.zone is a symbolic link to a valid zone file outside the directory
+    d_link: bool,
+    /// zdir/50-sub/ is a directory (holding a valid zone file that must not be loaded)
+    z_subdir: bool,
+    /// hdir/30.hosts is a symbolic link to a file that does not exist
+    h3_dangling: bool,
     h_added: bool,
     h_removed: bool,
     h_changed: bool,
@@ -55,7 +63,11 @@ const BASE: Files = Files {
     a_changed: false,
     a_corrupt: false,
     b_present: true,
+    b_dangling: false,
     c_present: false,
+    d_link: false,
+    z_subdir: false,
+    h3_dangling: false,
     h_added: false,
     h_removed: false,
     h_changed: false,
@@ -67,12 +79,15 @@ const BASE: Files = Files {
 
 impl Files {
     fn valid(&self) -> bool {
-        !self.a_corrupt && !self.h_corrupt && !self.hdir_gone && self.main == 0
+        !self.a_corrupt && !self.h_corrupt && !self.hdir_gone && self.main == 0 && !self.b_dangling && !self.h3_dangling
     }
     fn to_json(&self) -> Value {
         json!({
             "zdir/10-a.zone": {"added": self.a_added, "removed": self.a_removed, "changed": self.a_changed, "corrupt": self.a_corrupt},
-            "zdir/20-b.zone": self.b_present,
+            "zdir/20-b.zone": (if self.b_dangling { "dangling symlink" } else if self.b_present { "file" } else { "absent" }),
+            "zdir/40-d.zone -> ../elsewhere/d.zone": self.d_link,
+            "zdir/50-sub/": self.z_subdir,
+            "hdir/30.hosts -> (missing)": self.h3_dangling,
             "zdir/30-c.zone": self.c_present,
             "hdir/10.hosts": {"added": self.h_added, "removed": self.h_removed, "changed": self.h_changed, "corrupt": self.h_corrupt},
             "hdir/20.hosts": self.h2_present,
@@ -116,10 +131,29 @@ fn write_files(dir: &Path, f: &Files) -> Result<(), String> {
     std::fs::write(zdir.join("10-a.zone"), a).map_err(e)?;
     // zdir/20-b.zone, zdir/30-c.zone
     let b = zdir.join("20-b.zone");
-    if f.b_present {
+    // (a write through a dangling link would try to create its target: remove the entry first)
+    let _ = std::fs::remove_file(&b);
+    if f.b_dangling {
+        std::os::unix::fs::symlink(dir.join("nowhere").join("missing.zone"), &b).map_err(e)?;
+    } else if f.b_present {
         std::fs::write(&b, format!("{}www 60 IN A 192.0.2.110\n", soa("b.test."))).map_err(e)?;
+    }
+    // a valid zone file outside the directory, and possibly a link to it inside
+    let elsewhere = dir.join("elsewhere");
+    std::fs::create_dir_all(&elsewhere).map_err(e)?;
+    std::fs::write(elsewhere.join("d.zone"), format!("{}www 60 IN A 192.0.2.170\n", soa("d.test."))).map_err(e)?;
+    let d = zdir.join("40-d.zone");
+    let _ = std::fs::remove_file(&d);
+    if f.d_link {
+        std::os::unix::fs::symlink(elsewhere.join("d.zone"), &d).map_err(e)?;
+    }
+    // a subdirectory: its content is not part of the configuration
+    let sub = zdir.join("50-sub");
+    if f.z_subdir {
+        std::fs::create_dir_all(&sub).map_err(e)?;
+        std::fs::write(sub.join("e.zone"), format!("{}www 60 IN A 192.0.2.180\n", soa("e.test."))).map_err(e)?;
     } else {
-        let _ = std::fs::remove_file(&b);
+        let _ = std::fs::remove_dir_all(&sub);
     }
     let c = zdir.join("30-c.zone");
     if f.c_present {
@@ -146,6 +180,11 @@ fn write_files(dir: &Path, f: &Files) -> Result<(), String> {
             std::fs::write(&h2, "192.0.2.140 h2.lan\n").map_err(e)?;
         } else {
             let _ = std::fs::remove_file(&h2);
+        }
+        let h3 = hdir.join("30.hosts");
+        let _ = std::fs::remove_file(&h3);
+        if f.h3_dangling {
+            std::os::unix::fs::symlink(dir.join("nowhere").join("missing.hosts"), &h3).map_err(e)?;
         }
     }
     // explicit files
@@ -179,7 +218,7 @@ struct MarkerExp {
     in_zone: bool,
 }
 
-const MARKERS: [&str; 14] = [
+const MARKERS: [&str; 16] = [
     "keep.a.test.",
     "added.a.test.",
     "removable.a.test.",
@@ -187,6 +226,8 @@ const MARKERS: [&str; 14] = [
     "broken.a.test.",
     "www.b.test.",
     "www.c.test.",
+    "www.d.test.",
+    "www.e.test.",
     "www.m.test.",
     "keep.lan.",
     "hadd.lan.",
@@ -208,6 +249,8 @@ fn table(l: &Files) -> Vec<MarkerExp> {
         z(None),
         if l.b_present { z(Some(110)) } else { o(None) },
         if l.c_present { z(Some(120)) } else { o(None) },
+        if l.d_link { z(Some(170)) } else { o(None) },
+        o(None),
         z(Some(150)),
         o(Some(130)),
         o(if l.h_added { Some(131) } else { None }),
@@ -221,20 +264,28 @@ fn table(l: &Files) -> Vec<MarkerExp> {
 type Edit = (&'static str, fn(&Files) -> Option<Files>);
 
 /// The edit alphabet.  An edit is applicable when it changes the files.
-const EDITS: [Edit; 18] = [
+const EDITS: [Edit; 26] = [
     ("add a record to zdir/10-a.zone", |f| (!f.a_added).then(|| Files { a_added: true, ..*f })),
     ("remove a record from zdir/10-a.zone", |f| (!f.a_removed).then(|| Files { a_removed: true, ..*f })),
     ("change a record in zdir/10-a.zone", |f| Some(Files { a_changed: !f.a_changed, ..*f })),
     ("corrupt zdir/10-a.zone (bad RDATA)", |f| (!f.a_corrupt).then(|| Files { a_corrupt: true, ..*f })),
     ("repair zdir/10-a.zone", |f| f.a_corrupt.then(|| Files { a_corrupt: false, ..*f })),
     ("add zone file zdir/30-c.zone", |f| (!f.c_present).then(|| Files { c_present: true, ..*f })),
-    ("remove zone file zdir/20-b.zone", |f| f.b_present.then(|| Files { b_present: false, ..*f })),
+    ("remove zone file zdir/20-b.zone", |f| (f.b_present || f.b_dangling).then(|| Files { b_present: false, b_dangling: false, ..*f })),
+    ("replace zdir/20-b.zone by a dangling symlink", |f| (!f.b_dangling).then(|| Files { b_present: false, b_dangling: true, ..*f })),
+    ("restore zdir/20-b.zone as a regular file", |f| (!f.b_present).then(|| Files { b_present: true, b_dangling: false, ..*f })),
+    ("add zdir/40-d.zone, a symlink to a valid zone file elsewhere", |f| (!f.d_link).then(|| Files { d_link: true, ..*f })),
+    ("remove the symlink zdir/40-d.zone", |f| f.d_link.then(|| Files { d_link: false, ..*f })),
+    ("add a subdirectory zdir/50-sub holding a zone file", |f| (!f.z_subdir).then(|| Files { z_subdir: true, ..*f })),
+    ("remove the subdirectory zdir/50-sub", |f| f.z_subdir.then(|| Files { z_subdir: false, ..*f })),
     ("add an entry to hdir/10.hosts", |f| (!f.h_added).then(|| Files { h_added: true, ..*f })),
     ("remove an entry from hdir/10.hosts", |f| (!f.h_removed).then(|| Files { h_removed: true, ..*f })),
     ("change an entry in hdir/10.hosts", |f| Some(Files { h_changed: !f.h_changed, ..*f })),
     ("corrupt hdir/10.hosts (bad address with a name)", |f| (!f.h_corrupt).then(|| Files { h_corrupt: true, ..*f })),
     ("repair hdir/10.hosts", |f| f.h_corrupt.then(|| Files { h_corrupt: false, ..*f })),
     ("add hosts file hdir/20.hosts", |f| (!f.h2_present).then(|| Files { h2_present: true, ..*f })),
+    ("add a dangling symlink hdir/30.hosts", |f| (!f.h3_dangling).then(|| Files { h3_dangling: true, ..*f })),
+    ("remove the dangling symlink hdir/30.hosts", |f| f.h3_dangling.then(|| Files { h3_dangling: false, ..*f })),
     ("move the -A directory away", |f| (!f.hdir_gone).then(|| Files { hdir_gone: true, ..*f })),
     ("put the -A directory back", |f| f.hdir_gone.then(|| Files { hdir_gone: false, ..*f })),
     ("delete the explicit -z file", |f| (f.main != 1).then(|| Files { main: 1, ..*f })),
@@ -1259,8 +1310,13 @@ pub fn run(ctx: &Ctx) -> i32 {
 
     // ---- sequential space -------------------------------------------------------------
     // quick: every sequence of <= 2 applicable edits from the base.  thorough: breadth-first
-    // to depth 4, one representative sequence per (files, loaded) state.
+    // to depth 3, one representative sequence per (files, loaded) state; whatever time is left
+    // goes into sequences of length 4 (beyond the stated bound, reported separately, never
+    // counted as exhaustive).
+    let bound_depth = ctx.tier.pick(2usize, 3);
     let max_depth = ctx.tier.pick(2usize, 4);
+    let beyond = AtomicU64::new(0);
+    let beyond_cut = AtomicBool::new(false);
     let dedup = ctx.tier == Tier::Thorough;
     let seq_states: Mutex<BTreeSet<(Files, Files)>> = Mutex::new(BTreeSet::new());
     seq_states.lock().unwrap().insert((BASE, BASE));
@@ -1316,8 +1372,15 @@ pub fn run(ctx: &Ctx) -> i32 {
                             break;
                         }
                         if Instant::now() > seq_deadline {
-                            seq_capped.store(true, Ordering::SeqCst);
+                            if depth <= bound_depth {
+                                seq_capped.store(true, Ordering::SeqCst);
+                            } else {
+                                beyond_cut.store(true, Ordering::SeqCst);
+                            }
                             break;
+                        }
+                        if depth > bound_depth {
+                            beyond.fetch_add(1, Ordering::Relaxed);
                         }
                         let mut stats = SeqStats::default();
                         let end = srv.run_sequence(&cands[i], &mut stats, dedup && cands[i].len() > 2);
@@ -1334,8 +1397,9 @@ pub fn run(ctx: &Ctx) -> i32 {
                         }
                         if let Some((files, loaded)) = end {
                             let key = format!(
-                                "sequential/depth {}/last reload {}",
+                                "sequential/depth {}{}/last reload {}",
                                 names.len(),
+                                if names.len() > bound_depth { " (beyond the bound, as far as time allowed)" } else { "" },
                                 if files.valid() { "succeeds" } else { "fails (old configuration kept)" }
                             );
                             *seq_hist.lock().unwrap().entry(key).or_insert(0) += 1;
@@ -1405,7 +1469,7 @@ pub fn run(ctx: &Ctx) -> i32 {
     report.traces_validated = sequences + gate_totals.schedules + gate_totals.replayed;
     let failing_seqs: u64 = seq_hist.lock().unwrap().iter().filter(|(k, _)| k.contains("fails")).map(|(_, v)| *v).sum();
     report.distinct_nontrivial = failing_seqs + gate_totals.hist.iter().filter(|(k, _)| k.contains("blocked on the lock")).map(|(_, v)| *v).sum::<u64>();
-    report.rule = "sequential: every edit sequence from the reset state (quick: all of length <= 2; thorough: breadth-first to depth 4 keeping one sequence per distinct (files, loaded) state; from depth 3 on the earlier steps of a sequence, already judged as last steps of shorter sequences, are only checked for their log verdict), SIGUSR1 and all marker queries after every edit; non-trivial = sequences whose last reload must fail (the old configuration has to survive). gate: every schedule of release choices (stateless DFS, each schedule run twice); non-trivial = schedules in which a released task was observed to block on the zones lock (the two critical sections were actually contended)".into();
+    report.rule = "sequential: every edit sequence from the reset state (quick: all of length <= 2; thorough: breadth-first to depth 3 keeping one sequence per distinct (files, loaded) state, then sequences of length 4 for as long as the budget lasts, reported separately; from depth 3 on the earlier steps of a sequence, already judged as last steps of shorter sequences, are only checked for their log verdict), SIGUSR1 and all marker queries after every edit; non-trivial = sequences whose last reload must fail (the old configuration has to survive). gate: every schedule of release choices (stateless DFS, each schedule run twice); non-trivial = schedules in which a released task was observed to block on the zones lock (the two critical sections were actually contended)".into();
     report.merge_hist(&seq_hist.lock().unwrap());
     report.merge_hist(&gate_totals.hist);
     report.samples = seq_samples.lock().unwrap().clone();
@@ -1413,7 +1477,9 @@ pub fn run(ctx: &Ctx) -> i32 {
     report.exhaustive = gate_exhaustive && !seq_capped.load(Ordering::SeqCst);
     report.bounds = json!({
         "edit_alphabet": EDITS.iter().map(|(n, _)| *n).collect::<Vec<_>>(),
-        "max_sequence_length": max_depth,
+        "max_sequence_length": bound_depth,
+        "sequences_of_length_4_run_beyond_the_bound": beyond.load(Ordering::Relaxed),
+        "length_4_pass_cut_by_the_clock": beyond_cut.load(Ordering::Relaxed),
         "dedup_on_files_and_loaded": dedup,
         "marker_names": MARKERS,
         "distinct_files_loaded_states": n_states,
